@@ -1091,7 +1091,12 @@ def edge_class(F, G, caller, callee, bi):
         roots = {("param", r[1]) if r[0] == "local" and isinstance(r[1], int) and B.is_arg(r[1]) else r for r in roots} if roots else roots
         from_params = bool(roots) and all(r[0] == "param" for r in roots)
         if b["kind"] == "closure" and roots and all(r == ("param", 1) for r in roots):
-            verdicts.append("unknown")   # captured environment
+            # captured environment: in an *immediate* closure the captured values belong to the creator's activation - when they are rooted in the creator's own
+            # parameters the argument is (a component of) the enclosing term, like any other value of that activation
+            if caller not in G.deferred and _captures_rooted_in_params(F, G, caller, B, a):
+                verdicts.append("strict" if projected else "same")
+            else:
+                verdicts.append("unknown")
         elif b["kind"] == "closure" and caller not in G.deferred and roots and all(r[0] == "param" and r[1] >= 2 for r in roots):
             verdicts.append("strict")    # parameter of an immediate closure: an element handed over by an iterator adaptor over the enclosing term
         elif projected:
@@ -1107,6 +1112,70 @@ def edge_class(F, G, caller, callee, bi):
     if "strict" in verdicts:
         return "strict"    # the summed size of the tree-typed arguments strictly decreases (others are passed through unchanged)
     return "same"
+
+
+def _captures_rooted_in_params(F, G, closure, B, a, depth=0):
+    """are the captured variables the operand derives from (its backward slice inside the closure) rooted in parameters of the function that creates the closure?"""
+    import mirutil
+    ks, seen, work = set(), set(), [a[1][0]] if a[0] in ("C", "M") else []
+
+    def upvars(x):
+        if isinstance(x, list):
+            if len(x) >= 2 and x[0] == 1 and isinstance(x[-1], list) or (len(x) >= 2 and x[0] == 1):
+                for pr in x[1:]:
+                    if isinstance(pr, list) and pr and pr[0] == "." and isinstance(pr[1], int):
+                        ks.add(pr[1])
+                        break
+            for y in x:
+                upvars(y)
+    if a[0] in ("C", "M"):
+        upvars(a[1])
+    while work:
+        l = work.pop()
+        if l in seen:
+            continue
+        seen.add(l)
+        for (bi, si, kind, st) in B.defs.get(l, []):
+            ops = st.get("args", []) if kind == "call" else st[2]
+            upvars(ops)
+            stack = [ops]
+            while stack:
+                x = stack.pop()
+                if isinstance(x, list):
+                    if len(x) == 2 and x[0] in ("C", "M") and isinstance(x[1], list) and x[1] and isinstance(x[1][0], int):
+                        if x[1][0] != 1:
+                            work.append(x[1][0])
+                    elif x and isinstance(x[0], int) and x[0] != 1 and all(not isinstance(y, dict) for y in x):
+                        work.append(x[0])          # a bare place (Ref / Disc)
+                    else:
+                        stack.extend(y for y in x if isinstance(y, list))
+    if not ks:
+        return False
+    parent = G.creator.get(closure) if hasattr(G, "creator") else None
+    pb = F.bodies.get(parent) if parent else None
+    if pb is None:
+        return False
+    PB = mirutil.Body(F, pb)
+    for bl in pb["blocks"]:
+        for st in bl["s"]:
+            if st[0] == "A" and st[2][0] == "Agg" and isinstance(st[2][1], list) and st[2][1][0] == "closure" and st[2][1][1] == closure:
+                ops = st[2][2]
+                for k in ks:
+                    if k >= len(ops):
+                        return False
+                    roots = PB.pointer_root(ops[k])
+                    if not roots:
+                        return False
+                    for r in roots:
+                        if r[0] == "param":
+                            continue
+                        if r[0] == "local" and isinstance(r[1], int) and PB.is_arg(r[1]):
+                            if pb["kind"] == "closure" and r[1] == 1:
+                                return False        # the creator is itself a closure and hands on its own environment: not followed further
+                            continue
+                        return False
+                return True
+    return False
 
 
 EVALUATOR_SIG = "dyn core::ops::function::Fn(&dmntk_feel::scope::Scope) -> dmntk_feel::values::Value + core::marker::Send + core::marker::Sync"
